@@ -190,6 +190,24 @@ def check_case(ctx, case):
             ctx.unexpected(o3, "spatial_event_probability")
         elif not numpy.array_equal(numpy.asarray(o3.value), (want_sp > 0).astype(float)):
             ctx.violation("occupancy_wrong", {"got_sum": float(numpy.sum(o3.value)), "want_sum": float((want_sp > 0).sum())})
+    # ---- explicit bins must not change the region's own magnitude grid (state carried between calls)
+    if other:
+        own = exact.decimal_grid(other["start"], other["step"], other["n"])
+        now = None if region.magnitudes is None else [float(x) for x in region.magnitudes]
+        if now != own:
+            ctx.violation("explicit_mag_bins_rebound_the_regions_grid", {"before": own[:4], "after": None if now is None else now[:4]})
+        else:
+            obins = [mag_bin(own, e[2]) for e in ev]
+            if all(b is not None for b in obins):
+                want_own = numpy.zeros(len(own))
+                for b in obins:
+                    if b >= 0:
+                        want_own[b] += 1
+                o = call(lambda: cat().magnitude_counts())
+                if not o.ok:
+                    ctx.unexpected(o, "magnitude_counts_region_bound_after_explicit")
+                elif numpy.asarray(o.value).shape != want_own.shape or not numpy.array_equal(numpy.asarray(o.value), want_own):
+                    ctx.violation("region_bound_magnitude_counts_wrong_after_explicit_call", {"got": numpy.asarray(o.value).tolist()[:8], "want": want_own.tolist()[:8]})
     # ---- bin count == equivalent magnitude-range filter
     if n and not below:
         om = call(lambda: cat().magnitude_counts(**kw))
